@@ -22,6 +22,7 @@ import (
 	"os"
 	"os/exec"
 	"path/filepath"
+	"runtime/pprof"
 	"strconv"
 	"strings"
 	"time"
@@ -33,6 +34,15 @@ type C = vh.Ctx
 
 func main() {
 	if spec := os.Getenv("VERIF_CONC_CHILD"); spec != "" {
+		if pf := os.Getenv("VERIF_CONC_PROF"); pf != "" {
+			if f, err := os.Create(pf); err == nil {
+				pprof.StartCPUProfile(f)
+				rc := childMain(spec)
+				pprof.StopCPUProfile()
+				f.Close()
+				os.Exit(rc)
+			}
+		}
 		os.Exit(childMain(spec))
 	}
 	vh.Main("conc", run)
